@@ -1219,7 +1219,9 @@ def main(cmdlineargs) -> Statistics:
                 args.too_long_paired_output,
                 args.untrimmed_output,
                 args.untrimmed_paired_output,
-                args.output,
+                # Without -o, reads go to standard output, which is also
+                # what the path "-" means
+                args.output if args.output is not None else "-",
                 args.paired_output,
             ]
         )
